@@ -90,3 +90,25 @@ package limits
 //@ func MaxBytesReader
 //@   ensures [wrapper_starts_at_the_limit] isWrap(result) && wrapLimit(result) == n
 //@   ensures [wraps_this_body_for_this_writer] (*maxBytesReader)(result).r == r && (*maxBytesReader)(result).w == w && (*maxBytesReader)(result).err == nil
+
+//@ unit longest_first frames=on props=C17 nilchecks=on verify_pure=on filter=`limits\.(SortPathLimits|LengthDescending)$|limits\.pathLimitSorter\)\.(Len|Swap)$`
+//@ // C17 "path limits sorted longest first": the table handed to sort.Sort is the one being configured, the order it is
+//@ // sorted by is "longer path first", and the sorter's Len/Swap are a faithful view of that table (sort.Sort itself is the
+//@ // standard library's, trusted: it permutes through Swap until Less holds nowhere out of order)
+//@ func LengthDescending
+//@   pure
+//@   requires p1 != nil && p2 != nil
+//@   ensures [longer_path_first] result == (len(p1.Path) > len(p2.Path))
+//@ func (*pathLimitSorter).Len
+//@   pure
+//@   requires s != nil
+//@   ensures result == len(s.pathLimits)
+//@ func (*pathLimitSorter).Swap
+//@   requires s != nil && 0 <= i && i < len(s.pathLimits) && 0 <= j && j < len(s.pathLimits)
+//@   modifies E:github.com/tmpim/casket/caskethttp/httpserver.PathLimit
+//@   ensures [exchanges_two_entries_keeps_the_rest] s.pathLimits[i] == old(s.pathLimits[j]) && s.pathLimits[j] == old(s.pathLimits[i]) && forall(k, 0, len(s.pathLimits), (k != i && k != j) ==> s.pathLimits[k] == old(s.pathLimits[k]))
+//@ extern sort.Sort
+//@   modifies E:github.com/tmpim/casket/caskethttp/httpserver.PathLimit
+//@ func SortPathLimits
+//@   modifies E:github.com/tmpim/casket/caskethttp/httpserver.PathLimit
+//@   at call sort.Sort before [this_table_by_descending_path_length] (*pathLimitSorter)(arg0).pathLimits == pathLimits && (*pathLimitSorter)(arg0).by == LengthDescending
